@@ -150,6 +150,34 @@ theorem C06_segmentation_independent (max buf : Nat) (cap : Int) (h : InitOk max
     (hrun₂ : reader api async max buf cap segs₂ rooms₂ (s.frames.length + 3) = .ok ob₂) : ob₁ = ob₂ :=
   C06_sync_async_agree max buf cap cap h h s hs segs₁ segs₂ hseg₁ hseg₂ rooms₁ rooms₂ api async async ob₁ ob₂ hrun₁ hrun₂
 
+/-- **Frame API and message API agree**: reassembling (RFC 6455 5.4: skip control frames, a data frame starts a message,
+FIN ends it) the frames that NextFrame/AsyncNextFrame deliver for a session gives exactly the (type, payload) sequence that
+NextMessage/AsyncNextMessage deliver for it — whatever the segmentations, the variants and the runtime answers of the
+two runs. -/
+theorem C06_frame_message_consistent (max buf : Nat) (cap₁ cap₂ : Int) (h₁ : InitOk max cap₁) (h₂ : InitOk max cap₂) (s : Session)
+    (hs : InScope max buf s) (segs₁ segs₂ : List (List UInt8)) (hseg₁ : segs₁.flatten = wire s) (hseg₂ : segs₂.flatten = wire s)
+    (rooms₁ rooms₂ : List Int) (async₁ async₂ : Bool) (lf : List FrameOut) (lm : List MsgOut)
+    (hrun₁ : reader .frame async₁ max buf cap₁ segs₁ rooms₁ (s.frames.length + 3) = .ok (.frames lf))
+    (hrun₂ : reader .msg async₂ max buf cap₂ segs₂ rooms₂ (s.frames.length + 3) = .ok (.msgs lm)) :
+    assemble (lf.filterMap (·.f)) none = (lm.filter (·.err == .nil)).map (fun o => (o.ty, o.data)) := by
+  have hfm := msgs_le_frames hs
+  rcases C06_frame_api max buf cap₁ h₁ s hs segs₁ hseg₁ rooms₁ async₁ (s.frames.length + 3) (by omega) with he | e1
+  · rw [he] at hrun₁; cases hrun₁
+  rcases C06_delivery max buf cap₂ h₂ s hs segs₂ hseg₂ rooms₂ async₂ (s.frames.length + 3) (by omega) with he | e2
+  · rw [he] at hrun₂; cases hrun₂
+  rw [e1] at hrun₁; rw [e2] at hrun₂; cases hrun₁; cases hrun₂
+  have hl : (expectFrames s).filterMap (·.f) = s.frames.map inFrameOf := by
+    unfold expectFrames
+    simp [List.filterMap_append, List.filterMap_map, Function.comp_def]
+  have hr : ((expectMsgs s).filter (·.err == .nil)).map (fun o => (o.ty, o.data)) = s.msgs.map fun m => (m.ty, m.payload) := by
+    unfold expectMsgs
+    simp [List.filter_append, List.filter_map, Function.comp_def]
+    congr 1
+    exact List.filter_eq_self.mpr (fun _ _ => rfl)
+  rw [hl, hr]
+  obtain ⟨msgs, tail⟩ := s
+  exact assemble_session msgs tail hs
+
 theorem flatMap_ctl_expect (s : Session) :
     (expectMsgs s).flatMap (·.ctl) = ctlSeen (s.msgs.flatMap Sent.ctls ++ s.tail) := by
   obtain ⟨msgs, tail⟩ := s
